@@ -6,6 +6,31 @@ from concurrent.futures import ThreadPoolExecutor
 VERIF = os.path.dirname(os.path.dirname(os.path.abspath(__file__)))
 PROPS = os.environ.get('VERIF_MATRIX_PROPS', '').split() or ['C%02d' % i for i in range(1, 21)]
 
+MODULE_PROPS = {
+    'src/adsr.rs': 'C01 C02 C03 C17 C20', 'src/phase_accumulator.rs': 'C01 C02 C03 C10 C11 C12 C17',
+    'src/utils.rs': 'C01 C02 C03 C10 C11 C12 C13 C14 C17', 'src/lookup_tables.rs': 'C01 C03 C10 C12 C17',
+    'src/lfo.rs': 'C10 C11 C12 C17', 'src/mono_midi_receiver.rs': 'C04 C05 C06 C17 C18 C20',
+    'src/quantizer.rs': 'C07 C08 C09 C17 C19 C20', 'src/ribbon_controller.rs': 'C15 C16 C17',
+    'src/glide_processor.rs': 'C13 C14 C17',
+}
+
+
+def props_for(patch):
+    """with VERIF_MATRIX_BY_MODULE=1: only the properties anchored in the files the patch touches (a change to the
+    quantizer cannot move a MIDI property); otherwise all"""
+    if patch == 'CLEAN' or not os.environ.get('VERIF_MATRIX_BY_MODULE'):
+        return PROPS
+    sel = set()
+    for l in open(patch):
+        if l.startswith('+++ '):
+            f = l[4:].strip().split('\t')[0]
+            f = f[2:] if f[:2] in ('a/', 'b/') else f
+            if f not in MODULE_PROPS:
+                return PROPS
+            sel |= set(MODULE_PROPS[f].split())
+    return [p for p in PROPS if p in sel]
+
+
 def one(patch):
     tmp = tempfile.mkdtemp(prefix='matrix-')
     try:
@@ -19,7 +44,7 @@ def one(patch):
         ev = os.path.join(tmp, 'ev')
         env = dict(os.environ, VERIF_SELFTEST_REPO=tmp, VERIF_SELFTEST_EVIDENCE=ev)
         out = {}
-        for p in PROPS:
+        for p in props_for(patch):
             r = subprocess.run([os.path.join(VERIF, 'check'), p], cwd=VERIF, env=env, stdout=subprocess.PIPE, stderr=subprocess.STDOUT, text=True)
             first = ''
             for line in r.stdout.splitlines():
